@@ -254,6 +254,14 @@ def main(argv=None):
 
     logging.disable(logging.CRITICAL)
     warnings.filterwarnings("ignore")
+    try:
+        # tqdm starts a monitor thread on the first bar (even a disabled one) that takes tqdm's global lock every
+        # few seconds: a harness child forked while it holds the lock deadlocks (seen once in C04), and it is a
+        # second thread next to the controlled scheduler.  Progress bars are not part of any property.
+        import tqdm
+        tqdm.tqdm.monitor_interval = 0
+    except Exception:  # noqa
+        pass
     res = dict(prop=a.prop, shard=a.shard, ok=True, subs=[], replays=None)
     try:
         if a.replay is not None:
